@@ -29,11 +29,10 @@ def case_exact(case):
     n = len(idx)
     extra = {"variant": variant, "cls": case["cls"], "kind": case["kind"]}
     z = C05.DATA[:n].copy()
-    ext_c = np.array([0.3, 1.1, 0.7, 1.9, 0.2, 1.4, 0.9])[:n]
-    ext_t = 0.25 + 0.1 * np.arange(T.shape[1]) ** 1.3
+    ext_c, ext_t = C05.ext_values(variant, n, T.shape[1])
     exact = case["nugget"] > 0
     procs = [("const" if variant in ("Simple", "GenericDrift") else "none", "none", "none")]
-    if variant in ("Simple", "Ordinary", "Universal", "ExtDrift"):
+    if variant in ("Simple", "Ordinary", "Universal") + C05.EXTV:
         procs += [("const" if variant == "Simple" else "none", "call", "none"), ("call" if variant == "Simple" else "none", "none", "ln"), ("none", "call", "bc")]
     done = 0
     for proc in procs:
@@ -44,12 +43,12 @@ def case_exact(case):
                 continue
             if not np.all(np.isfinite(ref.ztilde())):
                 continue
-            kw = {"ext_drift": ext_c} if variant == "ExtDrift" else {}
+            kw = {"ext_drift": ext_c} if variant in C05.EXTV else {}
             f, v = k(cp, **kw)
             tol = max(1e-8, 1e2 * ref.tol(float(np.abs(zz).max())))
             r.close("field at a conditioning location == conditioning value", f, zz, rtol=1e-8, atol=tol, proc=list(proc), pinv=pinv, **extra)
             r.true("kriging variance at a conditioning location == 0", bool(np.all(np.abs(v) <= 1e-8 * ref.sill + 1e2 * kr.EPS * ref.cond * ref.sill)), info=v.tolist(), proc=list(proc), pinv=pinv, **extra)
-            kwt = {"ext_drift": ext_t} if variant == "ExtDrift" else {}
+            kwt = {"ext_drift": ext_t} if variant in C05.EXTV else {}
             ft, vt = k(T, **kwt)
             w, est, var = ref.solve(T, ext_t)
             r.true("kriging variance >= 0 everywhere", bool(np.all(vt >= 0)), info=vt.tolist(), **extra)
@@ -78,7 +77,7 @@ def case_duplicates(case):
     base = dict(exact=case["nugget"] > 0, cond_err="nugget", proc=("const" if variant in ("Simple", "GenericDrift") else "none", "none", "none"))
     # target points: the lattice (incl. the duplicated location) and generic points
     tp = np.hstack([T, P[:, idx]])
-    kwt = {"ext_drift": np.concatenate([ext_t, ext_c])} if variant == "ExtDrift" else {}
+    kwt = {"ext_drift": np.concatenate([ext_t, ext_c])} if variant in C05.EXTV else {}
     done = 0
     dup_sets = [(i,) for i in range(n)] + list(itertools.combinations(range(n), 2))
     for dups in dup_sets:
@@ -128,7 +127,7 @@ def _build_dup(case, cp, z, pinv, ext, base):
         C05._ref_only = orig
 
 
-GROUPS = {"exact": case_exact, "duplicates": case_duplicates}
+GROUPS = {"exact": case_exact, "duplicates": case_duplicates, "exact_refresh": C05.case_refresh}
 
 
 def run(chk):
@@ -136,7 +135,7 @@ def run(chk):
     gen = generic_values(chk.seed, 2, 0.05, 0.45, "C05gen")
     cases, dcases = [], []
     kinds = [("euclid", 1), ("euclid", 2), ("euclid", 3), ("time", 2), ("latlon", 3), ("latlon+time", 3)]
-    variants = ["Simple", "Ordinary", "Universal", "UniversalCustom", "ExtDrift", "Detrended", "GenericDrift"]
+    variants = ["Simple", "Ordinary", "Universal", "UniversalCustom", "ExtDrift", "ExtDrift2", "DriftExt", "Detrended", "GenericDrift"]
     models = ["Gaussian", "Exponential", "Spherical", "Matern", "Stable"] if tier == "quick" else list(C05.MODELS)
     for kind, sdim in kinds:
         P, T, ax = C05.pool(kind, sdim, gen)
@@ -163,4 +162,7 @@ def run(chk):
                                 dcases.append(c)
     chk.run("exact", case_exact, cases, rule="C05 space with zero measurement error (nugget 0, or nugget 0.3 with exact=True) x mean/trend/normalizer x pseudo-inverse type: field and variance at the conditioning locations, variance sign and bounds on the target set", max_skip_frac=0.6, chunk=8)
     chk.run("duplicates", case_duplicates, dcases, rule="every layout x every way of duplicating one or two conditioning points with different values x pinv/pinvh: equals the de-duplicated layout carrying the mean value", max_skip_frac=0.6, chunk=8)
+    depth = 3 if tier == "quick" else 4
+    hcases = C05.refresh_cases(tier, gen, ["anis", "angles", "len", "var"], depth, nugget=0.0, mode="exact")
+    chk.run("exact_refresh", C05.case_refresh, hcases, rule=f"variant x geometry (2-D, 3-D, 2-D+time, lat-lon) x isotropic/anisotropic start x every history of length <= {depth} over in-place model changes {{anis, angles, len_scale, var}} and set_condition {{no argument, new values, new positions}} ending with a set_condition (object called before, caches warm), nugget 0: after every set_condition the field at the present conditioning locations equals the present values with zero variance", max_skip_frac=0.6, chunk=16)
     chk.assume("numerically singular de-duplicated systems (cond > 1e10) are skipped by a counted guard; exactness is judged with tolerance max(1e-8, 1e5*eps*cond*|data|)")
